@@ -224,10 +224,42 @@ def o_label_never_in_arithmetic(ctx):
     ctx.claim('shift-invariant', eq(kb - ka, (n2 - n1) * 1000))
 
 
+def mk_pipeline_relabelling(first, second, ter):
+    """whole pipeline on two chains written one after the other (with or without a TER record between them): renaming
+    the second chain and shifting its residue numbers by a constant -- in particular so that its numbers collide with
+    those of the first chain -- changes labels only"""
+    def body(ctx):
+        from . import micro as M
+        t1 = '\n'.join(l for l in M.text(first).split('\n') if l and not l.startswith('TER')) + '\n' + ('TER   \n' if ter else '')
+        n1 = sorted({int(l[22:26]) for l in t1.split('\n') if l.startswith('ATOM')})
+        base_txt = t1 + M.renumber(M.text(second), 500, 'B')
+        start = ctx.choice('second_chain_starts_at', [n1[-1], n1[-1] + 1, n1[-1] - 1, n1[0], n1[0] - len(n1), 1, -5, -150, 3000])
+        chain = ctx.choice('second_chain_id', ['B', 'Z', 'a', '2'])
+        rel_txt = t1 + M.renumber(M.text(second), start, chain)
+        base = M.run(base_txt)
+        rel = M.run(rel_txt)
+
+        def key(g):
+            return (g.type, g.atom.name, round(g.atom.x, 3), round(g.atom.y, 3), round(g.atom.z, 3))
+        gb = {key(g): g for g in base.conformations['1A'].groups}
+        gr = {key(g): g for g in rel.conformations['1A'].groups}
+        ctx.claim('same-groups-up-to-labels', sorted(gb) == sorted(gr), detail='only in one: %r' % (sorted(set(gb) ^ set(gr))[:4],))
+        for k in gb:
+            if k not in gr:
+                continue
+            a, b = gb[k], gr[k]
+            ctx.claim('pka-unchanged', abs(a.pka_value - b.pka_value) < 1e-9, detail='%s -> %s: %r vs %r' % (a.label, b.label, a.pka_value, b.pka_value))
+            ctx.claim('desolvation-unchanged', a.num_volume == b.num_volume and abs(a.energy_volume - b.energy_volume) < 1e-9)
+            for kind in ('sidechain', 'backbone', 'coulomb'):
+                va, vb = sorted(d.value for d in a.determinants[kind]), sorted(d.value for d in b.determinants[kind])
+                ctx.claim('determinants-unchanged', len(va) == len(vb) and all(abs(x - y) < 1e-9 for x, y in zip(va, vb)), detail='%s %s: %r vs %r' % (a.label, kind, va, vb))
+    return body
+
+
 def obligations(tier):
     kf = ('known finding F5: insertion code ignored (label / residue_label / same-residue test use chain + number only); '
           'reported as KNOWN-FINDING, any other disagreement is a violation')
-    return [
+    obs = [
         Obligation('O1-desolvation-same-residue-exclusion', o_desolvation_exclusion, code=['propka/energy.py:radial_volume_desolvation'],
                    bounds='group residue and one environment atom with symbolic (chain in {A,B,_}, number in [-999,9999], insertion code in {blank,A,B})',
                    claim_doc='atom skipped <=> same (chain, number, insertion code)', outside=kf),
@@ -246,6 +278,13 @@ def obligations(tier):
         Obligation('O5-sort-key', o_label_never_in_arithmetic, code=['propka/conformation_container.py:ConformationContainer.sort_atoms_key'],
                    bounds='two residue numbers in [-999,9999] in one chain', claim_doc='order of numbers kept; key difference = 1000 * number difference'),
     ]
+    for first, second, ter in ([('cterm_PHE', 'tri_ASP', False), ('pair_LYS_ASP', 'tri_HIS', True)] if tier == 'quick' else
+                               [('cterm_PHE', 'tri_ASP', False), ('cterm_PHE', 'tri_ASP', True), ('pair_LYS_ASP', 'tri_HIS', True), ('pair_LYS_ASP', 'tri_HIS', False), ('cterm_PHE', 'pair_ASP_ARG', False), ('pep8', 'tri_LYS', False)]):
+        obs.append(Obligation('O6-pipeline-relabelling[%s+%s%s]' % (first, second, ',TER' if ter else ',no TER'), mk_pipeline_relabelling(first, second, ter),
+                              code=['propka/input.py:get_atom_lines_from_pdb', 'propka/conformation_container.py:ConformationContainer.sort_atoms_key', 'propka/run.py:single (whole pipeline)'],
+                              bounds='%s followed %s by %s as a second chain; second chain renamed (4 identifiers) and renumbered from 9 starting numbers incl. collisions with the first chain, negative and >999 (36 concrete files)' % (first, 'after a TER record' if ter else 'directly (no TER)', second),
+                              kind='table-check', claim_doc='same groups up to labels; pKa, desolvation, determinants unchanged', max_paths=400, shards=4))
+    return obs
 
 
 MANIFEST_ENTRY = {
